@@ -229,11 +229,19 @@ func drive(id, tier string) int {
 			if again.died && again.hang {
 				continue // confirmed
 			}
-			// not reproduced: the batch stays incomplete, the alarm is dropped
-			o.hang, o.died, o.timedOut = false, false, true
+			// not reproduced: the alarm is dropped and the batch is run once more, now
+			// that no other worker is running
 			unconfirmed++
-			fmt.Printf("INCONCLUSIVE property=%s batch=%d case %d exceeded its CPU budget while other workers were running but not when re-run alone; the rest of the batch was not executed\n", id, b, idx)
-			continue
+			redo := runBatch(bin, id, tier, seed, b, plan.PerBatch, runDir, repDir, wallLimit)
+			if !redo.died && !redo.timedOut && redo.res != nil {
+				*o = redo
+				fmt.Printf("INCONCLUSIVE property=%s batch=%d case %d exceeded its CPU budget while other workers were running but not when re-run alone; the batch was run again alone and completed\n", id, b, idx)
+				// (its own CPU-class reports, if any, are confirmed below like any other)
+			} else {
+				o.hang, o.died, o.timedOut = false, false, true
+				fmt.Printf("INCONCLUSIVE property=%s batch=%d case %d exceeded its CPU budget while other workers were running but not when re-run alone; the rest of the batch was not executed\n", id, b, idx)
+				continue
+			}
 		}
 		if o.res == nil {
 			continue
